@@ -19,13 +19,13 @@ LEVEL = {
  "C11": ("model_checking", "6 C11", "The builder state machine adds keyframes in every order; OrderFree invariant; the as-found defect (boundary times before the sort) is a negative control that TLC must refute; every behaviour with non-ascending insertion order is replayed.",
          "<=3 keyframes exhaustive, <=6 pseudo-random", TECH % ("", "")),
  "C04": ("model_checking", "6 C04", "NoJump is an action property model-checked over all histories to the stated depth on 5 configurations (the as-found stale-pause defect is a negative control TLC must refute); every history is replayed on a real animator and current_values is compared bit for bit immediately before and after every set_state.",
-         "tick >= 1/8 s; configuration pool of MC_Animator.tla; distinct keyframe positions per property", TECH % ("", "")),
+         "tick >= 1/8 s; configuration pool of MC_Animator.tla (leg A) and random configurations (leg B); distinct keyframe positions per property", TECH % ("", " and by TLC validating logs of real animators with random configurations (leg B)")),
  "C05": ("model_checking", "6 C05", "Consistent + PauseRules model-checked over all histories; replay compares after every operation current_state, current_values against exact terms, and through the cfg(mina_verif) hook the internal clock and pause record.",
-         "as C04", TECH % ("", "")),
+         "as C04", TECH % ("", " and by TLC validating logs of real animators with random configurations (leg B)")),
  "C06": ("model_checking", "6 C06", "In the model values are a function of (state, override, total ticks) (Consistent), so any partition gives the same result; in the replay a twin animator receives each advance split into 0 + a + b + 0 and must stay bit-identical (values, is_ended, clock, pause record), including after a 2^24-tick advance followed by single-tick frames.",
-         "exactly representable steps (tick >= 1/8 s); pure float-rounding drift for non-representable steps is not decided", TECH % ("", "")),
+         "exactly representable steps (tick >= 1/8 s); pure float-rounding drift for non-representable steps is not decided", TECH % ("", " and by TLC validating logs of real animators with random configurations (leg B)")),
  "C07": ("model_checking", "6 C07", "EndedIff / EndedStable / TerminalWhenEnded / NeverEndedIfInfinite model-checked over all histories incl. advances landing exactly on the total duration; AfterTotalConstant unbounded in Apalache; is_ended compared after every replayed operation.",
-         "as C04; total durations on the exact tick grid", TECH % (" and Apalache", "")),
+         "as C04; total durations on the exact tick grid", TECH % (" and Apalache", " and by TLC validating logs of real animators with random configurations (leg B)")),
  "C18": ("model_checking", "6 C18", "Every clause of C18 is an action property of the animate step in Bevy.tla, model-checked over all schedules x system orders (phase-skip defect is a negative control); TLC-enumerated and random schedules are run in a real App and TLC validates the logs; component contents are re-evaluated with the real timelines at the predicted evaluation points.",
          "tick = 1/8 s; 6 entity configurations + random ones from a pool of 10 timelines; component values judged via the real Timeline::update", TECH % ("", " and by TLC validating traces recorded from a real Bevy App (leg B)")),
  "C19": ("model_checking", "6 C19", "Select/chain steps carry the C19 clauses as action properties (untyped-event defect is a negative control); real App logs with selector, chain (incl. cycles) and one or two animated component types are validated by TLC with the system order left open.",
@@ -75,7 +75,7 @@ man = {
     "engines": [{"name": "tlc", "path": "/verif/spec", "serves_properties": sorted(LEVEL), "kind_free_text": "TLA+ specification (spec/*.tla) model-checked with TLC / Apalache, bound to /repo by bin/check via the Rust harnesses"}],
     "checks": checks,
     "not_applicable": [{"property_id": k, "reason": v} for k, v in sorted(NA.items())],
-    "notes": "bin/check <ID> decides one property; known findings in known_findings.json; seeded changes in seeded/.",
+    "notes": "bin/check <ID> decides one property (exit 0 held / 1 violation + VIOLATION line + replay file / 2 tool error); open and fixed findings in known_findings.json; seeded changes (incl. equivalent ones that must not be reported) and their sweep results in seeded/; DESIGN.md section 12 describes the framework as built.",
 }
 json.dump(man, open(os.path.join(ROOT, "MANIFEST.json"), "w"), indent=1)
 print("MANIFEST.json written:", len(checks), "checks,", len(NA), "not claimed")
